@@ -59,6 +59,11 @@ func rCases() []rCase {
 		{"C03", m("t.txt", "a{# c #}b{#- d -#}"), "t.txt", nil, "ab", false},
 		{"C03", m("t.txt", "{% verbatim %}a{% if %}b{{ x }}{# c #}{% endverbatim %}z"), "t.txt", nil, "a{% if %}b{{ x }}{# c #}z", false},
 		{"C03", m("t.txt", "x{% if t %}y{% for i in xs %}[{{ i }}]{% endfor %}w{% endif %}z"), "t.txt", map[string]stick.Value{"t": true, "xs": xs}, "xy[a][b][c]wz", false},
+		// C05
+		{"C05", m("t.txt", "{{ 7 - 2 }}|{{ 2 * 3 + 1 }}|{{ 7 / 2 }}|{{ 7 // 2 }}|{{ 7 % 3 }}|{{ 2 ** 3 }}|{{ -x }}|{{ +x }}"), "t.txt", map[string]stick.Value{"x": 4}, "5|7|3.5|3|1|8|-4|4", false},
+		{"C05", m("t.txt", "{{ 3 >= 3 }}|{{ 3 > 3 }}|{{ 2 <= 1 }}|{{ 1 < 2 }}|{{ 1 == '1' }}|{{ 1 != 2 }}|{{ not false }}|{{ true and false }}|{{ false or true }}"), "t.txt", nil, "1|||1|1|1|1||1", false},
+		{"C05", m("t.txt", "{{ true ? 'a' : 'b' }}{{ 0 ? 'a' : 'b' }}|{{ 'a' ~ 'b' ~ 1 }}|{{ \"x#{1 + 1}y\" }}|{{ 1 in [1, 2] }}|{{ 3 not in [1, 2] }}|{{ 'ab' starts with 'a' }}|{{ 'ab' ends with 'a' }}|{{ 'abc' matches 'b' }}"), "t.txt", nil, "ab|ab1|x2y|1|1|1||1", false},
+		{"C05", m("t.txt", "{{ {'k': 'v'}.k }}{{ [1, 2][1] }}|{{ (1..3)|join(',') }}|{{ ['a', 'b']|join('-') }}|{{ 5 b-and 3 }}{{ 5 b-or 2 }}{{ 5 b-xor 1 }}|{{ null }}|"), "t.txt", nil, "v2|1,2,3|a-b|174||", false},
 		// C06
 		{"C06", m("t.txt", "{% if a %}A{% elseif b %}B{% else %}C{% endif %}"), "t.txt", map[string]stick.Value{"a": false, "b": true}, "B", false},
 		{"C06", m("t.txt", "{% if a %}A{% elseif b %}B{% else %}C{% endif %}"), "t.txt", map[string]stick.Value{"a": false, "b": false}, "C", false},
